@@ -21,6 +21,9 @@
      MODFUNCBEGIN <g> <callee>       MIR_new_func, regs and the call insn ...
      MODFUNCEND                      ... the remaining insns, MIR_finish_func, export
      MODEND                          MIR_finish_module; prints "MT <module> <escaped text of the module>"
+     APIMOD <module> <f> <r1> <r2>   a whole module built through the API whose function f (p, n) has locals named
+                                     r1 and r2 (names the text scanner would not accept are legal here):
+                                     r1 = n + 1; r2 = r1; r1 += 100; r2 += r1; return r2
    generated test functions have the signature  i64 f (i64 p, i64 n);  p points to 64 i64 cells.  */
 #include <stdio.h>
 #include <stdlib.h>
@@ -341,6 +344,30 @@ int main (int argc, char **argv) {
     } else if (strcmp (w[0], "MODFUNCEND") == 0) {
       phase = "build-module";
       modfunc_end (ctx);
+      phase = "run";
+    } else if (strcmp (w[0], "APIMOD") == 0 && n == 5) {
+      phase = "build-module";
+      MIR_type_t res = MIR_T_I64;
+      MIR_var_t args[2];
+      memset (args, 0, sizeof (args));
+      args[0].type = MIR_T_I64;
+      args[0].name = "p";
+      args[1].type = MIR_T_I64;
+      args[1].name = "n";
+      MIR_new_module (ctx, w[1]);
+      MIR_item_t fi = MIR_new_func_arr (ctx, w[2], 1, &res, 2, args);
+      MIR_func_t f = fi->u.func;
+      MIR_op_t r1 = MIR_new_reg_op (ctx, MIR_new_func_reg (ctx, f, MIR_T_I64, w[3]));
+      MIR_op_t r2 = MIR_new_reg_op (ctx, MIR_new_func_reg (ctx, f, MIR_T_I64, w[4]));
+      MIR_op_t nn = MIR_new_reg_op (ctx, MIR_reg (ctx, "n", f));
+      MIR_append_insn (ctx, fi, MIR_new_insn (ctx, MIR_ADD, r1, nn, MIR_new_int_op (ctx, 1)));
+      MIR_append_insn (ctx, fi, MIR_new_insn (ctx, MIR_MOV, r2, r1));
+      MIR_append_insn (ctx, fi, MIR_new_insn (ctx, MIR_ADD, r1, r1, MIR_new_int_op (ctx, 100)));
+      MIR_append_insn (ctx, fi, MIR_new_insn (ctx, MIR_ADD, r2, r2, r1));
+      MIR_append_insn (ctx, fi, MIR_new_ret_insn (ctx, 1, r2));
+      MIR_finish_func (ctx);
+      MIR_new_export (ctx, w[2]);
+      MIR_finish_module (ctx);
       phase = "run";
     } else if (strcmp (w[0], "MODEND") == 0) {
       phase = "build-module";
